@@ -30,6 +30,54 @@ pub fn c05_clone_from() {
     vcover!(!src.is_evaluated());
 }
 
+/// the same contracts the Verus unit proves unboundedly, as loop-free bit-precise triples over the full domain (tag byte x
+/// all legal objective values x evaluated/unevaluated): they decide changed code that Verus cannot enter (e.g. std
+/// `Option` combinators with capturing closures)
+/// @verif anchor=Individual::evaluate_with bound="complete: loop-free, all tag bytes x all legal objective values"
+#[cfg_attr(kani, kani::proof)]
+pub fn c05_evaluate_with() {
+    let mut i = sym_maybe_evaluated();
+    let tag = *i.solution();
+    let value = sym_objective();
+    let mut calls = 0u32;
+    let mut seen = 0u8;
+    i.evaluate_with(|s| { calls += 1; seen = *s; value });
+    assert!(calls == 1, "evaluate_with must call the objective function exactly once");
+    assert!(seen == tag, "the objective function must see the individual's current solution");
+    assert!(*i.solution() == tag, "evaluate_with changed the solution");
+    assert!(i.is_evaluated() && i.get_objective() == Some(&value), "after evaluate_with the individual must carry exactly f(solution)");
+    assert!(*i.objective() == value, "objective() must report f(solution)");
+}
+/// @verif anchor=Individual::solution_mut bound="complete: loop-free, all tag bytes x all legal objective values"
+#[cfg_attr(kani, kani::proof)]
+pub fn c05_mutating_accessors() {
+    let mut i = sym_maybe_evaluated();
+    let tag = *i.solution();
+    {
+        let s = i.solution_mut();
+        assert!(*s == tag, "solution_mut must hand out the current solution");
+        *s = sym();
+    }
+    assert!(!i.is_evaluated() && i.get_objective().is_none(), "an access that can change the solution must leave the individual unevaluated");
+    // set_objective stores the value for the unchanged solution and reports whether one was there before
+    let mut j = sym_maybe_evaluated();
+    let (tag_j, was) = (*j.solution(), j.is_evaluated());
+    let v = sym_objective();
+    let r = j.set_objective(v);
+    assert!(r == was, "set_objective must report whether the individual was evaluated before");
+    assert!(*j.solution() == tag_j && j.get_objective() == Some(&v), "set_objective must store the value for the unchanged solution");
+    // readers and constructors
+    let k = sym_maybe_evaluated();
+    let (tag_k, obj_k) = (*k.solution(), k.get_objective().copied());
+    assert!(k.is_evaluated() == obj_k.is_some(), "is_evaluated disagrees with get_objective");
+    assert!(k.into_solution() == tag_k, "into_solution must return the solution");
+    let v2 = sym_objective();
+    let n = I::new(tag_k, v2);
+    assert!(*n.solution() == tag_k && n.get_objective() == Some(&v2), "new must keep solution and objective together");
+    let u = I::new_unevaluated(tag_k);
+    assert!(*u.solution() == tag_k && !u.is_evaluated(), "new_unevaluated must be unevaluated");
+}
+
 /// @verif anchor=Individual::clone_from bound="vector of 2 individuals"
 #[cfg_attr(kani, kani::proof)] #[cfg_attr(kani, kani::unwind(5))]
 pub fn c05_vec_clone_from() {
